@@ -770,7 +770,7 @@ func OptionalMatchAfterDuplicableRows(q *Shape) bool {
 			// The narrowing by evaluation is used for the plain case only - the first OPTIONAL MATCH of the query,
 			// extending from a variable that is already bound; everywhere else the shape alone decides, as before
 			// (disconnected and chained OPTIONAL MATCHes have defects of their own behind this one).
-			narrow := m.Index == firstOptional && q.optionalMatchExtendsBoundVariable(pi, ci)
+			narrow := q.Case.EvaluateOptionalMatchPrefix && m.Index == firstOptional && q.optionalMatchExtendsBoundVariable(pi, ci)
 			if pi > 0 {
 				// rows come out of a WITH
 				if !narrow || q.incomingRowsRepeat(pi, ci, referenced) {
